@@ -142,6 +142,13 @@ def run(tier, rep):
                               replay={"path": todo[i], "stage": stg})
             stage_counts[stg + ":" + key] = stage_counts.get(stg + ":" + key, 0) + 1
     rep.coverage["ir_stage_outcomes"] = stage_counts
+    # ---- (c') static pass relations on every path of every function of the same programs: A-normalisation keeps the order of
+    # effects (IREffects.tla: Lift vs ANF), dead-code elimination keeps every effect (Dce.tla: Go before / after the pass)
+    import passes
+    pst = passes.validate([{"id": i, "path": p, "ident": expect[i][2]} for i, p in todo.items()], rep, "c01", answers=answers)
+    rep.coverage["pass_relations"] = pst
+    if pst["dce"]["programs"] < 300 or pst["anf_order"]["programs"] < 300:
+        raise ToolError(f"vacuity: pass relations evaluated on too few programs: {pst}")
     rep.coverage["ir_programs_too_deep_for_json_reader"] = skipped
     if stage_counts.get("mono:agree", 0) < 300 or stage_counts.get("anf:agree", 0) < 300:
         raise ToolError(f"vacuity: IR stages agreed on too few programs: {stage_counts}")
